@@ -349,6 +349,17 @@ def get_value_type_by_c_number(items: [Token]) -> ValueType:
     size = 32
     if postfix in c_64bit_postfix:
         size = 64
+    # C11 6.4.4.1: the first type of the list which can represent the value.
+    is_hex = items[0].type == "HEX_NUMBER"
+    if size == 32 and signed and val > 0x7FFFFFFF:
+        if is_hex and val <= 0xFFFFFFFF:
+            signed = False
+        else:
+            size = 64
+    if size == 32 and not signed and val > 0xFFFFFFFF:
+        size = 64
+    if size == 64 and signed and val > 0x7FFFFFFFFFFFFFFF and is_hex:
+        signed = False
     return ValueType(signed, size)
 
 
